@@ -45,8 +45,13 @@ def isCallKind : FKind → Bool
   | .obj _ | .matchOn _ _ => true
   | _ => false
 
-/-- steps for the fields `fs` starting at member position `i` -/
-def confFieldsE (S : Schema) : Nat → List Field → List EStep → Bool
+/-- position of the first field called `name` -/
+def fieldIdx (fs : List Field) (name : String) : Option Nat :=
+  let i := fs.findIdx (·.name = name)
+  if i < fs.length then some i else none
+
+/-- steps for the fields `fs` (a suffix of the packet's fields `all`) starting at member position `i` -/
+def confFieldsE (S : Schema) (all : List Field) : Nat → List Field → List EStep → Bool
   | _, [], [] => true
   | i, f :: fs, steps =>
     match f.kind, f.rep with
@@ -55,12 +60,12 @@ def confFieldsE (S : Schema) : Nat → List Field → List EStep → Bool
       | f2 :: fs', .slot w1 le1 pv :: .mark sv :: st2 :: .mark ev :: .patch w2 le2 pv' sv' ev' slice :: rest =>
         w1 = t.width && leOk S w1 le1 && w2 = t.width && leOk S w2 le2
           && pv' = pv && sv' = sv && ev' = ev && sv != ev && pv != sv && pv != ev
-          && f2.name = target && !f2.rep && isCallKind f2.kind && sliceOk t.width slice
-          && plainOkE S (i + 1) f2 st2 && confFieldsE S (i + 2) fs' rest
+          && f2.name = target && fieldIdx all target = some (i + 1) && !f2.rep && isCallKind f2.kind && sliceOk t.width slice
+          && plainOkE S (i + 1) f2 st2 && confFieldsE S all (i + 2) fs' rest
       | _, _ => false
     | _, _ =>
       match steps with
-      | st :: rest => plainOkE S i f st && confFieldsE S (i + 1) fs rest
+      | st :: rest => plainOkE S i f st && confFieldsE S all (i + 1) fs rest
       | [] => false
   | _, _, _ => false
 
@@ -68,7 +73,7 @@ def namesNodup (fs : List Field) : Bool := (fs.map (·.name)).eraseDups.length =
 
 def confPacketE (S : Schema) (P : Prog) (p : Packet) : Bool :=
   match P.find p.name with
-  | some st => st.members.length = p.fields.length && confFieldsE S 0 p.fields st.enc
+  | some st => st.members.length = p.fields.length && confFieldsE S p.fields 0 p.fields st.enc
   | none => false
 
 def confEnc (S : Schema) (P : Prog) : Bool := S.packets.all (confPacketE S P)
@@ -91,10 +96,6 @@ def tableOk (kw : Option Nat) (pairs : List (Key × String)) (t : Table) : Bool 
   t.keyWidth = kw && t.errOnMiss
     && t.entries.all (fun e => pairs.any fun p => sameKey kw e.1 p.1 && e.2 = p.2)
     && pairs.all (fun p => (t.entries.find? fun e => sameKey kw e.1 p.1).map (·.2) = some p.2)
-
-def fieldIdx (fs : List Field) (name : String) : Option Nat :=
-  let i := fs.findIdx (·.name = name)
-  if i < fs.length then some i else none
 
 /-- byte width of the key field's type, `none` for a string key -/
 def keyWidthOf (fs : List Field) (key : String) : Option (Option Nat) :=
